@@ -1,11 +1,13 @@
 from .model import SCHEMA, Spec
-from . import c_dimension, c_prefix, c_unit, c_quantity, c_registry
+from . import c_dimension, c_prefix, c_unit, c_quantity, c_registry, c_lemmas
 
 CONTRACTS = {}
-for _m in (c_dimension, c_prefix, c_unit, c_quantity, c_registry):
+for _m in (c_dimension, c_prefix, c_unit, c_quantity, c_registry, c_lemmas):
     CONTRACTS.update(_m.CONTRACTS)
 SPEC = Spec()
 
 SPEC.loops = {}
 for _m in (c_unit,):
     SPEC.loops.update(getattr(_m, "LOOPS", {}))
+
+SIDE_MODULES = {"lemmas": c_lemmas.SRC}
